@@ -64,8 +64,9 @@ import hashlib
 import os
 import random
 import re
+import time
 from collections import Counter
-from datetime import datetime, timedelta
+from datetime import datetime, timedelta, timezone
 from typing import Any, Iterable
 
 from .. import loop as L
@@ -88,6 +89,8 @@ DUMP_ATTRS = (b'(UID FLAGS INTERNALDATE RFC822.SIZE '
               b'BODY.PEEK[HEADER.FIELDS (X-VF-ID)])')
 MONTHS = (b'Jan', b'Feb', b'Mar', b'Apr', b'May', b'Jun', b'Jul', b'Aug',
           b'Sep', b'Oct', b'Nov', b'Dec')
+TZS = ('America/New_York', 'Europe/Berlin', 'Australia/Sydney',
+       'Asia/Kolkata')
 ZONES = (b'+0000', b'-0500', b'+0530', b'+1400', b'-1200', b'+0100', b'-0330')
 
 _dt_re = re.compile(rb'\A([ \d]\d)-([A-Za-z]{3})-(\d{4}) (\d\d):(\d\d):(\d\d) '
@@ -1602,10 +1605,19 @@ class Case:
             if t.date is None:
                 self.cnt['unparsed_internaldate'] += 1
             elif t.date != op['date']:
-                self.fail('append-wrong-date',
+                # structural: the wall-clock time is right for the zone the
+                # server runs in, but labelled with today's UTC offset
+                # instead of the offset in force at that date (DST)
+                then = op['date'].replace(tzinfo=timezone.utc).astimezone() \
+                    .utcoffset()
+                now = datetime.now().astimezone().utcoffset()
+                sub = ':utc-offset-of-today' if then != now and \
+                    t.date - op['date'] == then - now else ''
+                self.fail('append-wrong-date' + sub,
                           'APPEND date-time %r (%s UTC), INTERNALDATE %r '
-                          '(%s UTC)' % (op['rawdate'], op['date'], t.rawdate,
-                                        t.date))
+                          '(%s UTC); server time zone %s' % (
+                              op['rawdate'], op['date'], t.rawdate, t.date,
+                              os.environ.get('TZ', '(default)')))
         else:
             self.cnt['lat_append_date_free'] += 1
         au = info['appenduid']
@@ -1972,7 +1984,8 @@ class C10(Check):
             '* / 1:* / *:n / n:* / duplicates / overlapping / lists / '
             'out-of-range / 4294967295 / expunged and never-assigned UIDs, '
             'on dict, maildir and maildir with a dovecot-keywords file '
-            '(keywords permitted); every step compared with the reference '
+            '(keywords permitted), a quarter of the cases with the server '
+            'process in a non-UTC zone (TZ); every step compared with the reference '
             'model (tagged condition, untagged responses, full dump); '
             'distinct = hash of the (command, set shape, store mode) sequence;'
             ' non-trivial = >= 3 steps compared and >= 1 mutation applied')
@@ -2013,6 +2026,8 @@ class C10(Check):
                 'nsteps': rng.randint(5, 25)}
             if r >= 0.8:
                 spec['kwfile'] = True
+            if rng.random() < 0.25:
+                spec['tz'] = rng.choice(TZS)
             yield spec
 
     def run_case(self, spec: dict[str, Any]) -> dict[str, Any]:
@@ -2022,12 +2037,25 @@ class C10(Check):
         async def main(loop: L.CtlLoop) -> None:
             await case.run()
 
+        # the zone the server process runs in is a parameter of the case
+        old_tz = os.environ.get('TZ')
+        if spec.get('tz'):
+            os.environ['TZ'] = spec['tz']
+            time.tzset()
+            case.cnt['cases_in_zone_' + spec['tz'].split('/')[-1]] += 1
         try:
             L.run(main, max_steps=3_000_000)
         except L.Deadlock:
             case.aborted = case.aborted or 'deadlock'
         except L.StepLimit:
             case.aborted = case.aborted or 'step-limit'
+        finally:
+            if spec.get('tz'):
+                if old_tz is None:
+                    os.environ.pop('TZ', None)
+                else:
+                    os.environ['TZ'] = old_tz
+                time.tzset()
         if case.viol:
             w = case.viol[0].setdefault('witness', {})
             w['program'] = case.program()
